@@ -205,6 +205,8 @@ def camera_pattern(C):
 
 
 COLOR_PROPS = ['emission', 'ambient', 'diffuse', 'specular', 'reflective', 'transparent']
+ALL_PROPS = ['emission', 'ambient', 'diffuse', 'specular', 'shininess', 'reflective', 'reflectivity',
+             'transparent', 'transparency', 'index_of_refraction']
 
 
 def effect_pattern(E):
